@@ -80,7 +80,7 @@ CHECKS["C18"] = dict(
 CHECKS["C16"] = dict(
     level="exploration", design="DESIGN.md 3/C16",
     technique="differential property-based testing: exhaustive enumeration of CASM instruction shapes x boundary offsets / immediates, one cairo-vm step over encode(assemble(i)) from seeded random machine states against an own reference step written from the printed meaning; op_size equality",
-    text="116 shapes, ~29,000 instruction instances, 6 (quick) / 40 (thorough) machine states each; outcome, pc, ap, fp and the set of newly written cells (write-once deduction of destination or operand) must agree; encoded length equals op_size. QM31 / Blake2s extension forms are size-checked only.",
+    text="180 shapes (all eight bodies), ~55,000 instruction instances, 6 (quick) / 40 (thorough) machine states each; outcome, pc, ap, fp and the set of newly written cells (write-once deduction of destination or operand) must agree; encoded length equals op_size. QM31 add / mul assertions are compared against an own QM31 field implementation, Blake2s against an own RFC 7693 compression function.",
     note="Trusted: cairo-vm's step as the executing machine (the property is stated against it). Pairs where the printed meaning does not determine the outcome (operand aliasing the destination, pointer x pointer arithmetic) are skipped and counted.")
 
 CHECKS["C08"] = dict(
